@@ -6,7 +6,7 @@ What is translated
                      constructs a BoundMonitor)
   BoundMonitor       __await__, aawait, athrow, aclose, start, try_await
   GeneratorObject    ayield
-  GeneratorObjectIterator  _first_iter, __del__ (synchronous), __anext__, asend, athrow, aclose, _athrow
+  GeneratorObjectIterator  __del__ (synchronous), _first_iter (in place), __anext__, asend, athrow, aclose, _athrow
 
 How.  Every function is executed *symbolically*, statement by statement, by one generic executor in
 continuation-passing style (`Exec`): assignments, `if/elif/else`, `while True`, `try/except/else/finally`,
@@ -748,8 +748,11 @@ class Exec:
                 if (recv is not None and recv[1] == "hooks") or (self.is_self(fn.value) and fn.attr == "finalizer"):
                     fval = self.pure(fn, loc)
                 if fval is not None and fval[1] == "hookfn" and len(e.args) == 1 and self.is_self(e.args[0]):
-                    # hooks.firstiter(self): the call is only reached when the hook is installed
-                    return let("evs", "evs ++ [HookEv.firstiter]", cont(("()", "unit"), loc))
+                    # hooks.firstiter(self): only reached when the hook is installed; a user's hook may raise
+                    x = self.gensym("e")
+                    return let("evs", "evs ++ [HookEv.firstiter]",
+                               match("hookCall cfg", [(".ok _", cont(("()", "unit"), loc)),
+                                                      (f".err {x}", k.raise_((x, "pyexc"), loc))]))
                 if fval is not None and fval[1] == "finalizer" and len(e.args) == 1 and self.is_self(e.args[0]):
                     return let("evs", "evs ++ [HookEv.finalizer]", cont(("()", "unit"), loc))
                 if recv is None and fval is None and self.is_self(fn.value) and (f.cls, fn.attr) in self.tr.funcs \
@@ -770,7 +773,9 @@ class Exec:
 
     @staticmethod
     def raises(node):
-        return any(isinstance(x, ast.Raise) for x in ast.walk(node))
+        """may an exception leave this helper?  (a `raise`, or a call of a user-supplied hook)"""
+        return any(isinstance(x, ast.Raise) or (isinstance(x, ast.Call) and isinstance(x.func, ast.Attribute)
+                                                and x.func.attr == "firstiter") for x in ast.walk(node))
 
     def inline(self, node, call, loc, k, cont):
         """a private synchronous helper of the same object, executed in place: its parameters are bound to
@@ -1019,7 +1024,8 @@ WANTED = [
     ("Monitor", ["oob", "_asend", "aawait", "athrow", "aclose", "start", "try_await"]),
     ("BoundMonitor", ["__await__", "aawait", "athrow", "aclose", "start", "try_await"]),
     ("GeneratorObject", ["ayield"]),
-    ("GeneratorObjectIterator", ["_first_iter", "__del__", "__anext__", "asend", "athrow", "aclose", "_athrow"]),
+    # (_first_iter may raise — the user's hook — and is executed in place where it is called)
+    ("GeneratorObjectIterator", ["__del__", "__anext__", "asend", "athrow", "aclose", "_athrow"]),
 ]
 
 HEADER = """-- GENERATED by translator/monitor2lean.py from src/asynkit/monitor.py — do not edit
